@@ -66,6 +66,9 @@ Inductive pevent :=
 | PRenewOk | PRenewExpired | PRenewErr     (* the wait elapsed and Renew answered *)
 | PDemote                                  (* manual demotion *)
 | PHandoff (connected lease_ok : bool)     (* handoff request: the target is a connected subscriber / Lease.Handoff succeeds *)
+| PHandoffLeaseGone                        (* handoff request to a connected target; the renewal made before the lease id is passed
+                                              on reports the lease gone.  A handoff that fails otherwise changes nothing: in
+                                              particular it does not postpone the next renewal *)
 | PShutdown.
 Inductive pexit := XExpired | XDemoted | XHandedOff | XShutdown | XStillPrimary.
 
@@ -88,6 +91,7 @@ Fixpoint primary_loop (ttl : N) (s : pstate) (evs : list pevent) : pexit * bool 
     | PDemote => (XDemoted, true, p_since s)
     | PHandoff connected ok =>
       if connected && ok then (XHandedOff, false, p_since s) else primary_loop ttl s r
+    | PHandoffLeaseGone => (XExpired, true, p_since s)
     | PShutdown => (XShutdown, true, p_since s)
     end
   end.
